@@ -54,7 +54,8 @@ func Relay(name string, tags map[string]bool) *vtx.Profile {
 				e = append(e, E("perm", "c2", 0, "A"), E("chan", "c2", N1, "B"))
 			}
 
-			return append(e, vtx.AdvanceMenu(m, now, ns1, []time.Duration{7 * time.Second})...)
+			// +500 ms: a second request within a second of the first (what a client that follows CreatePermission with ChannelBind does)
+			return append(e, vtx.AdvanceMenu(m, now, ns1, []time.Duration{500 * time.Millisecond, 7 * time.Second})...)
 		},
 	}
 }
